@@ -63,7 +63,7 @@ Definition wfpc (p : pc) : Prop :=
   match p with
   | PRet _ rx ri re => 0 <= rx /\ 0 <= ri /\ 0 <= re
   | PIRel _ n => 1 <= n
-  | PIRetain b n => 1 <= n /\ wfb b
+  | PIRetain b n => 1 <= n <= 2 /\ wfb b
   | PWeakCas b old new => wfb b /\ new = s32 (old + 1) /\ -1 < old
   | PWeakLoad b | PEnter b | PEnterRetain b | PNfQ b | PNfPush b | PNfRetain b | PNfHead b
   | PNfLoad b | PNfCas b _ _ => wfb b
@@ -173,6 +173,10 @@ Qed.
 (* ------------------------------------------------------------------ the invariant *)
 Definition finset (r : greg -> Z) : bool := nz (r FIN) && nz (r CTX).
 
+(* n calls borrow a reference of a level whose pool holds `pool` references: if any call borrows, one is there.
+   Kept as a named predicate so that lia does not case-split on it in the goals that do not need it. *)
+Definition borrowed_ok (n pool : Z) : Prop := Z.min 1 n <= pool.
+
 (* global part: registers only, written in linear form (no implications) so that lia decides the step cases
    quickly; the readable consequences are derived below (Greg_readable).
    [group non-empty] is Z.min 1 (r GVAL); [ref = -1] is 1 - Z.min 1 (r IREF + 1) *)
@@ -197,7 +201,7 @@ Definition Greg (r : greg -> Z) (pv : kind -> Z) : Prop :=
   (* whoever owes a retain is inside a call that borrowed a reference *)
   pv KB = pv KBX + pv KBI - pv KPE - pv KPN /\
   (* a borrowed reference is there: while calls borrow a level, its owners keep at least one reference of that level *)
-  (Z.min 1 (pv KBX) <= r XPOOL /\ Z.min 1 (pv KBI) <= r IPOOL).
+  (borrowed_ok (pv KBX) (r XPOOL) /\ borrowed_ok (pv KBI) (r IPOOL)).
 
 Definition hf (s : gst) (k : kind) : Z -> Z := fun t => held k (pcs s t) (gn s t).
 Definition Binv (s : gst) : Prop := forall k, bounded (hf s k) (priv s k).
@@ -207,7 +211,7 @@ Definition Inv (s : gst) : Prop := Greg (regs s) (priv s) /\ Binv s /\ Tinv s.
 Lemma Inv_init : Inv init_state.
 Proof.
   split; [|split].
-  - unfold Greg, init_state, init_regs, finset, MAXC, f_OS_OBJECT_GLOBAL_REFCNT; cbn. repeat split; try lia; intros; try lia; try discriminate.
+  - unfold Greg, borrowed_ok, init_state, init_regs, finset, MAXC, f_OS_OBJECT_GLOBAL_REFCNT; cbn. repeat split; try lia; intros; try lia; try discriminate.
   - intros k l ND. unfold hf, init_state; cbn [pcs gn priv]. cbv beta.
     induction l as [|a l IH]; cbn [sumf]; [lia|].
     inversion ND as [|? ? ? ND']; subst. specialize (IH ND').
@@ -294,13 +298,23 @@ Ltac b_facts :=
   repeat match goal with H : wfb ?b |- _ => apply hb_wf in H end.
 Ltac leave_facts :=
   repeat match goal with H : leave_new ?x = ?x |- _ => apply leave_new_fix_no_HN in H end.
+(* what the borrow invariant gives the stepping thread, in linear form *)
+Ltac borrow_facts :=
+  repeat match goal with
+         | b : bsrc, HX : borrowed_ok (?pv KBX) (?r XPOOL), HI : borrowed_ok (?pv KBI) (?r IPOOL) |- _ =>
+             lazymatch goal with
+             | H : hb KBX b <= r XPOOL |- _ => fail
+             | _ => assert (hb KBX b <= r XPOOL) by (unfold borrowed_ok in *; lia);
+                    assert (hb KBI b <= r IPOOL) by (unfold borrowed_ok in *; lia)
+             end
+         end.
 Ltac prep :=
-  unfold Greg, finset, MAXC, f_OS_OBJECT_GLOBAL_REFCNT in *; conj_hyps; b_facts.
+  unfold Greg, finset, MAXC, MAXE, f_OS_OBJECT_GLOBAL_REFCNT in *; conj_hyps; b_facts.
 Ltac finish :=
   bool_hyps; repeat match goal with H : _ \/ _ |- _ => destruct H end; bool_hyps; leave_facts; try congruence; unfold sv in *;
   repeat match goal with H : s32 (ea _) = _ |- _ => rewrite H in * end;
-  simp_goal; cbn [held held0 hb hk one b2z] in *; s32_norm;
-  repeat split; try lia.
+  simp_goal; cbn [held held0 hb hk one b2z] in *; borrow_facts; s32_norm;
+  repeat split; try lia; try (unfold borrowed_ok in *; lia).
 
 Lemma greg_step1 r pv p g e p' ups g' :
   Greg r pv -> wfpc p -> 0 <= g -> (forall k, held k p g <= pv k) -> (forall k, 0 <= pv k) ->
@@ -309,11 +323,11 @@ Lemma greg_step1 r pv p g e p' ups g' :
   Greg (if is_crash p' then setr (apply_ups ups r) CRASH 1 else apply_ups ups r)
        (fun k => pv k + held k p' g' - held k p g) /\ 0 <= g'.
 Proof.
-  intros HG HW Hg HL HP Hc Hts Hef.
+  intros HG HW Hg HL HP Hct Hts Hef.
   pose proof (Greg_bounds r pv HG HP) as BD.
   spec_kinds HL. spec_kinds HP. clear HL HP.
   destruct p; cbn [tstep1 effect1 wfpc] in *; try discriminate.
-  all: cbv beta iota delta [contract_r MAXE] in Hc.
+  all: cbv beta iota delta [contract_r MAXE] in Hct.
   all: unfold guard, after_irel, lv_entry, wake_entry, wake_tail, wake_rel, end_pc in *.
   all: repeat match goal with c : kont |- _ => destruct c end.
   all: prep.
